@@ -7,7 +7,7 @@ import corr_pq
 import gen_passwords
 import train_util
 
-SITES = ['parser_parse', 'alpha_detect', 'save_pcfg_data', 'save_counter', 'load_file', 'load_base', 'rec_guesses', 'find_children', 'aymc']
+SITES = ['read_password', 'tfi_init', 'parser_parse', 'alpha_detect', 'save_pcfg_data', 'save_counter', 'load_file', 'load_base', 'rec_guesses', 'find_children', 'aymc']
 TRUSTED = ['hypotheses of C03_trained_reproduced that are not theorems: Agree (the guesser grammar loaded from the files agrees with the lists the trainer wrote: C07 theorems and file oracle) and CaseInvAll as in C13; AllListed is a theorem now (trained_all_listed over Model/Trainer.lean, whose counters are compared with the real trainer on whole lists by C05 tr.train)',
            'composition of C05 (tiling, masks), C06 (every segment is an entry of its list), C07 (loader returns the same values), C14 '
            '(C<n> inserted after A<n>, skip_brute renormalisation), C04 (expansion = product with masks), C02 (every pre-terminal emitted): '
@@ -28,6 +28,20 @@ def tame(pw):
         elif c.isalpha() and lo != c:
             return False
     return len(pw.lower()) == len(pw)
+
+
+def write_training(tf, pws, enc, counted):
+    with open(tf, 'wb') as f:
+        if not counted:
+            f.write(('\n'.join(pws) + '\n').encode(enc))
+            return
+        k = 0
+        while k < len(pws):
+            j = k
+            while j < len(pws) and pws[j] == pws[k]:
+                j += 1
+            f.write(f"{j - k:>7} {pws[k]}\n".encode(enc))
+            k = j
 
 
 def language_size(pcfg, cap):
@@ -72,13 +86,19 @@ def run(ctx):
         cov = rng.choice([0.1, 0.6, 0.6, 1.0])
         ngram = rng.choice([2, 3, 4, 5])
         tf = os.path.join(root, 'train.txt')
-        with open(tf, 'wb') as f:
-            f.write(('\n'.join(pws) + '\n').encode(enc))
+        # the list in the `sort | uniq -c` layout (trainer --prefixcount): right-aligned counter, one space, the password - which may
+        # itself begin with spaces
+        counted = (i == 2) or (i > 2 and rng.random() < 0.25)
+        if counted:
+            pws = [' dragon77', '  letmein', ' dragon77'] + pws
+            pws = sorted(pws)
+        write_training(tf, pws, enc, counted)
         rd = os.path.join(common.scratch_dir('rules'), 'c03r')
-        ok, log = common.train(tf, rd, encoding=enc, ngram=ngram, coverage=cov, alphabet_size=rng.choice([100, 20]))
+        ok, log = common.train(tf, rd, encoding=enc, ngram=ngram, coverage=cov, alphabet_size=rng.choice([100, 20]), prefixcount=counted)
         if not ok:
             continue
-        wit = {'list': pws, 'encoding': enc, 'coverage': cov, 'ngram': ngram}
+        wit = {'list': pws, 'encoding': enc, 'coverage': cov, 'ngram': ngram, 'prefixcount': counted}
+        dist['prefixcount'] = dist.get('prefixcount', 0) + int(counted)
         try:
             pcfg = common.load_grammar(rd, skip_brute=True)
         except Exception as e:
@@ -91,8 +111,10 @@ def run(ctx):
         cases += 1
         for k, v in (('encoding', enc), ('coverage', str(cov)), ('ngram', str(ngram))):
             dist[k][v] = dist[k].get(v, 0) + 1
-        from lib_trainer.trainer_file_input import TrainerFileInput
-        valid = list(TrainerFileInput(tf, enc).read_password())
+        # the training passwords are the ones of the generated list (not what the reader made of them): a reader that alters or drops
+        # a valid password breaks the property as surely as a grammar that cannot derive it
+        from lib_trainer.trainer_file_input import check_valid
+        valid = [p for p in pws if check_valid(p)]
         mw, _ = train_util.first_pass(valid)
         emitted = set()
         mass = 0.0
@@ -151,10 +173,9 @@ def replay(ctx, payload):
     common.use_impl()
     root = common.scratch_dir('c03')
     tf = os.path.join(root, 'replay.txt')
-    with open(tf, 'wb') as f:
-        f.write(('\n'.join(w['list']) + '\n').encode(w['encoding']))
+    write_training(tf, w['list'], w['encoding'], w.get('prefixcount', False))
     rd = os.path.join(common.scratch_dir('rules'), 'c03replay')
-    ok, _ = common.train(tf, rd, encoding=w['encoding'], ngram=w['ngram'], coverage=w['coverage'])
+    ok, _ = common.train(tf, rd, encoding=w['encoding'], ngram=w['ngram'], coverage=w['coverage'], prefixcount=w.get('prefixcount', False))
     if not ok:
         return []
     pcfg = common.load_grammar(rd, skip_brute=True)
